@@ -307,7 +307,7 @@ def replay(check, case):
 def synthetic_orders():
     out = [int(c.order) for c in catalog.real_curves()]
     for k in (8, 9, 15, 16, 17, 24, 63, 64, 65, 112, 160, 161, 255, 256, 257,
-              384, 520, 521, 522, 528):
+              384, 520, 521, 522, 528, 1015, 1023, 1024, 2047, 2056):
         out += [(1 << k) - 1, 1 << k, (1 << k) + 1]
     return out
 
